@@ -1,6 +1,7 @@
 /* C07-H2: opus_repacketizer_out_range_impl from ANY constructed valid state with <=F frames of <=ML bytes: any [begin,end),
    maxlen, framing, pad. The output is re-parsed by the real parser and compared with the selected frames byte for byte.
-   -DF -DML -DOL -DPADV=0|1 */
+   -DF -DML -DOL -DPADV=0|1 ; -DLENS=a,b,c makes the frame lengths concrete case selectors (lengths around the 251/252 one-/two-byte
+   length boundary and 1275 need copies of hundreds of bytes, affordable only with concrete sizes); the byte comparison is then made at one symbolic position per frame */
 #include "common.h"
 #include "opus.h"
 #include "opus_private.h"
@@ -22,9 +23,23 @@ void harness(void){
   rp.toc=vt_uchar(); rp.nb_frames=vt_range(1,F);
   rp.framesize=opus_packet_get_samples_per_frame(&rp.toc,8000);
   __CPROVER_assume(rp.nb_frames*rp.framesize<=960);                       /* Inv(rp): at most 120 ms */
+#ifdef LENS
+  static const int fixed_len[F]={LENS};
+#endif
   int off=0;
-  for(int i=0;i<F;i++){ int l=vt_range(0,ML); rp.len[i]=l; rp.frames[i]=src+off; off+=l; rp.paddings[i]=0; rp.padding_len[i]=0; rp.padding_nb_frames[i]=0; }
-  int begin=vt_int(), end=vt_int(), maxlen=vt_range(0,OL), sd=vt_range(0,1), pad=PADV;
+  for(int i=0;i<F;i++){
+#ifdef LENS
+    int l=fixed_len[i];
+#else
+    int l=vt_range(0,ML);
+#endif
+    rp.len[i]=l; rp.frames[i]=src+off; off+=l; rp.paddings[i]=0; rp.padding_len[i]=0; rp.padding_nb_frames[i]=0; }
+#ifdef LENS
+  int begin=BEGIN, end=END;          /* case selectors too: they select which concrete lengths are copied */
+#else
+  int begin=vt_int(), end=vt_int();
+#endif
+  int maxlen=vt_range(0,OL), sd=vt_range(0,1), pad=PADV;
   int r=opus_repacketizer_out_range_impl(&rp,begin,end,out,maxlen,sd,pad,0,0);
   if(begin<0||begin>=end||end>rp.nb_frames){ VASSERT(r==OPUS_BAD_ARG,"bad range rejected"); { int k=vt_range(0,OL); VASSERT(out[k]==guard,"nothing written on a bad range"); } return; }
   int n=end-begin; int need=spec_size(rp.len+begin,n,sd);
@@ -39,7 +54,15 @@ void harness(void){
     VASSERT((toc&0xFC)==(rp.toc&0xFC),"configuration bits preserved");
     VASSERT(pko==r,"the packet is exactly the returned length");
     for(int i=0;i<F;i++) if(i<c && c==n){ VASSERT(sz[i]==rp.len[begin+i],"frame length preserved, in order");
+#ifdef LENS
+      { int j=vt_range(0,ML-1); if(j<sz[i]) VASSERT(fr[i][j]==rp.frames[begin+i][j],"frame bytes preserved (any position)"); } }
+#else
       for(int j=0;j<ML;j++) if(j<sz[i]) VASSERT(fr[i][j]==rp.frames[begin+i][j],"frame bytes preserved"); }
+#endif
   }
+#ifdef LENS
+  VWITNESS(r>0 && sd==1);
+#else
   VWITNESS(r>0 && n==F && rp.len[0]!=rp.len[F-1]);
+#endif
 }
